@@ -89,8 +89,21 @@ P.fn(FP + 'ifcat.invoke', name='ifcat.invoke', params=dict(self='ifcat', tex='Te
      ensures=ONE + ['ghost("branch") == (0 if self.attributes["a"].catcode == self.attributes["b"].catcode else 1)', 'len(result) == 0'],
      allocates=True, skip_frame=True, locals={'[]': 'list[Tok]'},
      calls={'self.parse': 'ifcat.parse', 'tex.processIfContent': 'TeX.processIfContent/bool'})
+# \ifmmode: the true text iff the context reports math mode (Context.isMathMode: proved in C04 to be the mode declared by the innermost
+# frame that declares one)
+P.cls('Ctx')
+P.cls('Doc', fields=dict(context='Ctx'))
+P.uninterp('MATHMODE', ['Ctx'], 'bool')
+P.fn('Ctx.isMathMode', params=dict(self='Ctx'), returns='bool', ensures=['result == MATHMODE(self)'], trusted=True, modifies=[],
+     notes='Context.isMathMode (contract proved in C04)')
+P.cls('ifmmode', bases=['IfCommand'], fields=dict(ownerDocument='Doc'))
+P.fn(FP + 'ifmmode.invoke', name='ifmmode.invoke', params=dict(self='ifmmode', tex='TeX'), returns='list[Tok]',
+     requires=['ghost("ncalls") == 0'],
+     ensures=ONE + ['ghost("branch") == (0 if MATHMODE(self.ownerDocument.context) else 1)', 'len(result) == 0'],
+     allocates=True, skip_frame=True, locals={'[]': 'list[Tok]'},
+     calls={'self.ownerDocument.context.isMathMode': 'Ctx.isMathMode', 'tex.processIfContent': 'TeX.processIfContent/bool'})
 P.unverified_surrounding("functional selection of processIfContent (which tokens are pushed back) against TeX's skipping machine: "
-                         "bounded native comparison (bounded/ifcontent); if / ifx token comparison (Token.__eq__ hook): not under contract")
+                         "bounded native comparison (bounded/ifcontent); if / ifx token comparison (Token.__eq__ hook), ifcase / ifdefined / box tests: not under contract")
 
 # ---------------------------------------------------------------------------------------------- which tokens are pushed back
 # TeX's skipping machine, stated over a ghost classification K of the stream tokens (0 other, 1 \if..., 2 \fi, 3 \else, 4 \or,
